@@ -125,6 +125,9 @@ func (r *Reader) Meta() *indexmeta.Meta {
 	return r.meta
 }
 
+// maxHeaderSize bounds the header length read from the file before it is used as an allocation size.
+const maxHeaderSize = 16 << 20
+
 func readHeaderSize(reader io.ReaderAt) (int64, error) {
 	// read header size:
 	headerSizeBuf := make([]byte, 4)
@@ -132,6 +135,10 @@ func readHeaderSize(reader io.ReaderAt) (int64, error) {
 		return 0, err
 	}
 	headerSize := int64(binary.LittleEndian.Uint32(headerSizeBuf))
+	if headerSize > maxHeaderSize {
+		// the header holds the metadata and at most 65536 prefix/offset pairs
+		return 0, fmt.Errorf("header size %d exceeds the maximum of %d", headerSize, maxHeaderSize)
+	}
 	return headerSize, nil
 }
 
